@@ -159,6 +159,15 @@ m('M90-poseidon-keeps-state', ['C10'], (PB2, "\tstate = c.fullRounds(state, true
 m('M91-chip-value-receiver', ['C03', 'C06'], (B, "func (p *Chip) RangeCheckWithMaxBits(x Variable, maxNbBits uint64) {", "func (p Chip) RangeCheckU32(x Variable) {\n\tp.RangeCheckWithMaxBits(x, 32)\n}\n\nfunc (p *Chip) RangeCheckWithMaxBits(x Variable, maxNbBits uint64) {"), (U, "glChip.RangeCheckWithMaxBits(slicePub[i], 32)", "glChip.RangeCheckU32(slicePub[i])"))
 m('M92-dispatch-default-collects', ['C06'], (B, "\tcase NATIVE_RANGE_CHECKER, BIT_DECOMP_RANGE_CHECKER:\n\t\tp.rangeChecker.Check(x, nbBits)\n\tcase COMMIT_RANGE_CHECKER:", "\tcase BIT_DECOMP_RANGE_CHECKER:\n\t\tp.rangeChecker.Check(x, nbBits)\n\tdefault:"))
 
+# ---- added after the fourth batch of seeded changes
+DS = 'variables/deserialize.go'
+GU = 'goldilocks/utils.go'
+m('M94-key-embedded', ['C04'], (U, "type VerifierCircuit struct {", "type VerifierData = variables.VerifierOnlyCircuitData\n\ntype VerifierCircuit struct {"), (U, "\tVerifierData variables.VerifierOnlyCircuitData `gnark:\"-\"`\n\n", "\tVerifierData `gnark:\"-\"`\n\n"), (U, "\tVerifierData      variables.VerifierOnlyCircuitData `gnark:\"-\"`\n", "\tVerifierData      `gnark:\"-\"`\n"))
+m('M95-squeeze-whole-state', ['C09'], (PG, "\t\tfor i := 0; i < SPONGE_RATE; i++ {\n\t\t\toutputs = append(outputs, state[i])", "\t\tfor i := 0; i < len(state); i++ {\n\t\t\toutputs = append(outputs, state[i])"))
+m('M96-steps-bound-from-caps', ['C19'], (DS, "\t\tnumSteps := len(openingProofRaw.QueryRoundProofs[i].Steps)\n", "\t\tnumSteps := len(openingProof.CommitPhaseMerkleCaps)\n"))
+m('M97-u64-through-element', ['C19'], (GU, "\t\toutput = append(output, NewVariable(input[i]))", "\t\toutput = append(output, NewVariable(input[i]%MODULUS.Uint64()))"))
+m('M98-match-on-trimmed-id', ['C18'], ('plonk/gates/gates.go', "\t\tmatches := regex.FindStringSubmatch(gateId)", "\t\tmatches := regex.FindStringSubmatch(strings.TrimSpace(gateId))"), ('plonk/gates/gates.go', 'import (\n', 'import (\n\t"strings"\n'))
+
 # ---- behaviour-preserving refactors: must stay silent on every property
 ALL = ['C01', 'C02', 'C03', 'C04', 'C05', 'C06', 'C07', 'C08', 'C09', 'C10', 'C11', 'C12', 'C13', 'C14', 'C15', 'C16', 'C17', 'C18', 'C19', 'C20']
 m('R02-inline-assertLeadingZeros', [], (F, "\tf.assertLeadingZeros(friChallenges.FriPowResponse, f.friParams.Config)\n", "\tf.gl.RangeCheckWithMaxBits(friChallenges.FriPowResponse, 64-f.friParams.Config.ProofOfWorkBits)\n"))
@@ -212,6 +221,8 @@ m('R50-poseidon-named-stages', [], ('poseidon/bn254.go', "\tstate = c.ark(state,
 m('R51-chip-pointer-helper', [], (B, "func (p *Chip) RangeCheckWithMaxBits(x Variable, maxNbBits uint64) {", "func (p *Chip) RangeCheckU32(x Variable) {\n\tp.RangeCheckWithMaxBits(x, 32)\n}\n\nfunc (p *Chip) RangeCheckWithMaxBits(x Variable, maxNbBits uint64) {"), (U, "glChip.RangeCheckWithMaxBits(slicePub[i], 32)", "glChip.RangeCheckU32(slicePub[i])"))
 m('R52-dispatch-if-form', [], (B, "\tswitch p.rangeCheckerType {\n\tcase NATIVE_RANGE_CHECKER, BIT_DECOMP_RANGE_CHECKER:\n\t\tp.rangeChecker.Check(x, nbBits)\n\tcase COMMIT_RANGE_CHECKER:", "\tif p.rangeCheckerType != COMMIT_RANGE_CHECKER {\n\t\tp.rangeChecker.Check(x, nbBits)\n\t\treturn\n\t}\n\tswitch p.rangeCheckerType {\n\tcase COMMIT_RANGE_CHECKER:"))
 m('R53-chip-value-getter', [], (B, "func (p *Chip) RangeCheckWithMaxBits(x Variable, maxNbBits uint64) {", "func (p Chip) API() frontend.API {\n\treturn p.api\n}\n\nfunc (p *Chip) RangeCheckWithMaxBits(x Variable, maxNbBits uint64) {"))
+m('R54-decoder-len-hoisted', [], ('variables/deserialize.go', "\tfor i := 0; i < len(openingProofRaw.CommitPhaseMerkleCaps); i++ {", "\tnCaps := len(openingProofRaw.CommitPhaseMerkleCaps)\n\tfor i := 0; i < nCaps; i++ {"))
+m('R55-squeeze-range-form', [], (PG, "\t\tfor i := 0; i < SPONGE_RATE; i++ {\n\t\t\toutputs = append(outputs, state[i])", "\t\tfor i := 0; i < 8; i++ {\n\t\t\toutputs = append(outputs, state[i])"))
 
 if __name__ == '__main__':
     import json, sys
